@@ -10,11 +10,21 @@ Guard of `merge_succeeds_replace` (lean/Props/C16.lean): `compatible_content` is
 types (`compatTransB`, lean/PM/UndoGuard.lean).  Tie: for every schema used, the guard evaluated with the real
 `NodeType.compatible_content` is compared with the model's value (driver op `compatTrans`).  Relational oracle:
 guard true and the pair applies  =>  the merged step applies in the real code.  Every schema of the bundled family
-(the property's quantifier) has to satisfy the guard; in a random schema that does not, a merged replace step that is
-refused although the pair applied is counted (`merged-fails:guard-false`), not reported — the statement is false there
-(`merge_needs_guard`, same file).
+(the property's quantifier) has to satisfy the guard; in a schema that does not, a merged replace step that is refused
+although the pair applied is counted (`merged-fails:guard-false`), not reported, when the per-case guard below is false —
+the statement is false there (`merge_needs_guard`, same file) — and reported otherwise.
+
+Per-case guard of `merge_succeeds_replace_backward` (`mergeCompat`, lean/PM/MergeGuard.lean): in the second `merge`
+branch the ancestors of `second.from` and of `first.to` in the original document have join-compatible types at every
+depth up to `depth(first.from)`; nothing in the first branch (`merge_succeeds_replace_forward`).  Tie: the guard computed
+with `ResolvedPos.node(d)` and `NodeType.compatible_content` of the real code is compared with the model's value for
+every merged replace pair (driver op `mergeCompat`, exact).  Relational oracle, in every schema (transitive or not):
+guard true and the pair applies  =>  the real merged step applies and gives the pair's document; a refused merged step
+with the guard false is counted (`merged-fails:guard-false`) — each of them is explained by the guard; guard false and
+the real merged step applies is a mismatch (the guard is necessary too: `merge_succeeds_replace_iff`).
+Which pairs merge: the model's `merge` and the real one are compared exactly (merged or not, and the merged step).
 """
-from prosemirror.model import Fragment, Slice
+from prosemirror.model import Fragment, Schema, Slice
 from prosemirror.transform import AddMarkStep, RemoveMarkStep, ReplaceStep
 
 from .. import core, gen, schemas
@@ -34,6 +44,132 @@ def compat_transitive(schema):
     rel = {(a.name, b.name): bool(a.compatible_content(b)) for a in types for b in types}
     return all(not (rel[a.name, b.name] and rel[b.name, c.name]) or rel[a.name, c.name]
                for a in types for b in types for c in types)
+
+
+def text_loop(schema):
+    """`TextLoop` (lean/Proofs/TokValid.lean) on the real content automata: after a text child another text child is
+    accepted and the automaton stays where it is"""
+    text = schema.nodes["text"]
+    for nt in schema.nodes.values():
+        seen, todo = [], [nt.content_match]
+        while todo:
+            m = todo.pop()
+            if any(m is x for x in seen):
+                continue
+            seen.append(m)
+            todo.extend(e.next for e in m.next)
+        for m in seen:
+            q1 = m.match_type(text)
+            if q1 is not None and q1.match_type(text) is not q1:
+                return False
+    return True
+
+
+def merge_branch(s1, s2):
+    """which branch of `ReplaceStep.merge` joins the pair (1: second continues after first's content; 2: second ends where
+    first starts; 0: none)"""
+    if not (isinstance(s1, ReplaceStep) and isinstance(s2, ReplaceStep)) or s1.structure or s2.structure:
+        return 0
+    if s1.from_ + s1.slice.size == s2.from_ and not s1.slice.open_end and not s2.slice.open_start:
+        return 1
+    if s2.to == s1.from_ and not s1.slice.open_start and not s2.slice.open_end:
+        return 2
+    return 0
+
+
+def merge_compat(d, s1, s2):
+    """`mergeCompat` (lean/PM/MergeGuard.lean) with the real code's resolve / compatible_content:
+    (guard, levels looked at, branch)"""
+    br = merge_branch(s1, s2)
+    if br != 2:
+        return True, 0, br
+    depth = d.resolve(s1.from_).depth
+    rf, rt = d.resolve(s2.from_), d.resolve(s1.to)
+    ok = True
+    for k in range(1, depth + 1):
+        if k > rf.depth or k > rt.depth:
+            break
+        if not rf.node(k).type.compatible_content(rt.node(k).type):
+            ok = False
+            break
+    return ok, depth, br
+
+
+def join_pairs(rng, d):
+    """deletions that join two or three sibling nodes (at any depth), as a pair of adjacent steps in either order:
+    backwards (join the last two, then the result onto the first) and forwards"""
+    parents = [(0, d)]
+    d.descendants(lambda n, pos, par, i: parents.append((pos + 1, n)) or True)
+    out = []
+    rng.shuffle(parents)
+    for start, par in parents[:6]:
+        kids, off = [], start
+        for k in range(par.child_count):
+            c = par.child(k)
+            if not c.is_leaf and not c.is_text:
+                kids.append((off, c))
+            off += c.node_size
+        if len(kids) < 2:
+            continue
+        pick = sorted(rng.sample(range(len(kids)), min(len(kids), rng.choice([2, 3, 3]))))
+        pos = []
+        for i in pick:
+            cstart, c = kids[i]
+            inner = [0]
+            for k in range(c.child_count):
+                inner.append(inner[-1] + c.child(k).node_size)
+            pos.append(cstart + 1 + rng.choice(inner))
+        if len(pos) == 2:
+            pos = [pos[0], pos[1], pos[1]] if rng.random() < 0.5 else [pos[0], pos[0], pos[1]]
+        p, q, r = pos
+        out.append((ReplaceStep(q, r, Slice.empty), ReplaceStep(p, q, Slice.empty)))
+        out.append((ReplaceStep(p, q, Slice.empty), ReplaceStep(p, p + (r - q), Slice.empty)))
+    return out
+
+
+def aimed_bridge(rng, info, n):
+    """(document, pairs) in the hand-written schemas `bridge` / `bridge-local` (A ~ C ~ B, not A ~ B): three siblings
+    A, C, B (or B, C, A) among random ones; deleting backwards joins the third onto the second, then the result onto
+    the first — the merged step has to join the third onto the first directly (`merge_needs_guard`)"""
+    schema = info.schema
+    N = schema.nodes
+
+    def leaf(name):
+        t = N[name]
+        if t.is_leaf:
+            return t.create()
+        return t.create(None, [schema.text(gen.gen_text(rng, 1, 2, plain=True))] if rng.random() < 0.6 else [])
+
+    def mk(name, n_q=None):
+        if name == "A":
+            return N["A"].create(None, [leaf("p")] + [leaf("q") for _ in range(rng.randint(0, 2) if n_q is None else n_q)])
+        if name == "B":
+            return N["B"].create(None, [leaf("q") for _ in range(rng.randint(1, 3))])
+        return N["C"].create(None, [leaf(rng.choice("pq")) for _ in range(rng.randint(0, 3))])
+
+    def bounds(node, lo=0):
+        inner = [0]
+        for k in range(node.child_count):
+            inner.append(inner[-1] + node.child(k).node_size)
+        return inner[lo:]
+
+    out = []
+    for _ in range(n):
+        before = [mk(rng.choice("ABC")) for _ in range(rng.randint(0, 2))]
+        after = [mk(rng.choice("ABC")) for _ in range(rng.randint(0, 2))]
+        mirrored = rng.random() < 0.5
+        trio = [mk("B"), mk("C"), mk("A")] if mirrored else [mk("A"), mk("C"), mk("B")]
+        d = N["doc"].create(None, before + trio + after)
+        start = sum(x.node_size for x in before)
+        s0, s1_, s2_ = start, start + trio[0].node_size, start + trio[0].node_size + trio[1].node_size
+        # cut points that keep the first node's content valid after the joins
+        p = s0 + 1 + rng.choice(bounds(trio[0], 1))
+        q = s1_ + 1 + rng.choice(bounds(trio[1]))
+        r = s2_ + 1 + rng.choice(bounds(trio[2], 1 if mirrored else 0))
+        pairs = [(ReplaceStep(q, r, Slice.empty), ReplaceStep(p, q, Slice.empty)),
+                 (ReplaceStep(p, q, Slice.empty), ReplaceStep(p, p + (r - q), Slice.empty))]
+        out.append((d, pairs))
+    return out
 
 
 def adjacent_pairs(rng, info, d, docs):
@@ -114,6 +250,7 @@ def adjacent_pairs(rng, info, d, docs):
         out.append((cls(f, t, m), cls(f2, t2, m2)))
     for _ in range(4):
         out.append((gen.gen_step(rng, info, d, docs), gen.gen_step(rng, info, d, docs)))
+    out.extend(join_pairs(rng, d))
     return out
 
 
@@ -122,35 +259,56 @@ def run(ctx):
     rng = ctx.rng
     reqs, metas = [], []
     greqs, gmetas = [], []
+    creqs, cmetas = [], []
     guard_of = {}
+    loop_of = {}
 
     def flush():
         gouts = ctx.driver.run(greqs) if greqs else []
         for (name, impl), out in zip(gmetas, gouts):
             ctx.count("guard:model_requests")
+            if isinstance(impl, tuple):
+                if (out.get("ok") or {}).get("textLoop") is not impl[1]:
+                    ctx.mismatch("textLoop", {"schema": name}, impl[1], out)
+                continue
             if out.get("ok") is not impl:
                 ctx.mismatch("compatTrans", {"schema": name}, impl, out)
         del greqs[:], gmetas[:]
+        couts = ctx.driver.run(creqs) if creqs else []
+        for (replay, impl), out in zip(cmetas, couts):
+            ctx.count("mergeCompat:model_requests")
+            if out.get("ok") != list(impl):
+                ctx.mismatch("mergeCompat", replay, list(impl), out)
+        del creqs[:], cmetas[:]
         outs = ctx.driver.run(reqs) if reqs else []
-        for req, (replay, info, d, d2, impl_merged), out in zip(reqs, metas, outs):
+        for req, (replay, info, d, d2, impl_merged, dm_impl), out in zip(reqs, metas, outs):
             ctx.count("model_requests")
             mj = out.get("ok")
             if "ok" not in out:
                 ctx.mismatch("merge", replay, "answer", out)
                 continue
-            if mj is None:
-                ctx.count("model:unmerged" + (":impl-merged" if impl_merged else ""))
+            if (mj is None) != (impl_merged is None):
+                # which pairs merge: exact (the two never differed over some 10^5 recorded pairs)
+                ctx.mismatch("merge", replay, "merged" if impl_merged is not None else "not merged", {"merged": mj})
                 continue
-            ctx.count("model:merged" + ("" if impl_merged else ":impl-unmerged"))
+            if mj is None:
+                ctx.count("model:unmerged")
+                continue
+            ctx.count("model:merged")
             stm, ms = outcome(lambda: info.un_step(mj))
-            dm = apply_doc(ms, d) if stm == "ok" else None
+            if stm != "ok" or ms.to_json() != impl_merged.to_json():
+                ctx.mismatch("merge", replay, impl_merged.to_json(), {"merged": mj})
+                continue
+            if dm_impl is None:
+                continue        # the real merged step is refused (guard false, counted above): nothing to reproduce
+            dm = apply_doc(ms, d)
             if dm is None or not dm.eq(d2):
                 ctx.mismatch("merge", replay, "model's merged step reproduces the two-step result on the real code", {"merged": mj})
         del reqs[:], metas[:]
 
-    def one_doc(info, d, docs):
+    def one_doc(info, d, docs, extra=()):
         schema = info.schema
-        for s1, s2 in adjacent_pairs(rng, info, d, docs):
+        for s1, s2 in list(extra) + adjacent_pairs(rng, info, d, docs):
             if any(getattr(x, "from_", 0) > getattr(x, "to", 0) for x in (s1, s2)):
                 continue   # outside the guard from <= to
             d1 = apply_doc(s1, d)
@@ -168,11 +326,27 @@ def run(ctx):
                 ctx.violation("merge-raises", f"merge raised {merged}", replay)
                 continue
             ctx.count(("merged:" if merged is not None else "unmerged:") + type(s1).__name__)
+            if merged is not None and not isinstance(s1, ReplaceStep) and not loop_of[id(info)]:
+                ctx.count("merged:" + type(s1).__name__ + ":schema-without-textLoop")
+            dm = None
             if merged is not None:
                 replay["merged"] = merged.to_json()
                 dm = apply_doc(merged, d)
-                if dm is None and isinstance(s1, ReplaceStep) and not guard_of[id(info)]:
-                    ctx.count("merged-fails:guard-false")      # outside the guard of merge_succeeds_replace
+                rg = (True, 0, 0)
+                if isinstance(s1, ReplaceStep):
+                    rg = merge_compat(d, s1, s2)
+                    ctx.count("mergeCompat:branch%d:%s" % (rg[2], "true" if rg[0] else "false")
+                              + ("" if guard_of[id(info)] else ":schema-nontransitive"))
+                    creqs.append({"op": "mergeCompat", "s": info.lean_id, "doc": info.node(d), "a": info.step(s1), "b": info.step(s2)})
+                    cmetas.append((replay, rg))
+                    if guard_of[id(info)] and not rg[0]:
+                        # compatTransB and the pair applying imply the per-case guard (mergeCompat_of_trans)
+                        ctx.mismatch("mergeCompat", replay, "the schema guard holds and the pair applies, so the per-case guard holds", "per-case guard false")
+                    if not rg[0] and dm is not None:
+                        # the guard is necessary as well (mergeCompat_of_merged_applies): the model says this cannot happen
+                        ctx.mismatch("mergeCompat", replay, "guard false, so the merged step is refused", "the real merged step applies")
+                if dm is None and not rg[0] and not guard_of[id(info)]:
+                    ctx.count("merged-fails:guard-false")      # explained by the per-case guard (merge_needs_guard)
                 elif dm is None:
                     ctx.violation("merged-fails", "the merged step does not apply although the two-step sequence does", replay)
                 elif not dm.eq(d2):
@@ -180,14 +354,25 @@ def run(ctx):
                 elif dm.content.size != d2.content.size:
                     ctx.violation("merged-size", "size delta differs", replay)
             reqs.append({"op": "merge", "a": info.step(s1), "b": info.step(s2)})
-            metas.append((replay, info, d, d2, merged is not None))
+            metas.append((replay, info, d, d2, merged, dm))
 
     fam = schemas.family()
-    for si in range(ctx.budget(14, 60)):
+    aimed = [schemas.by_name("bridge"), schemas.by_name("bridge-local")]    # compatible_content not transitive
+    # schemas without `TextLoop` (a text child cannot always be followed by another one): merged mark steps there
+    aimed += [schemas.SchemaInfo(Schema({"nodes": {"doc": {"content": "para+"}, "para": {"content": c, "marks": "_"},
+                                                    "img": {"inline": True}, "text": {"inline": True}},
+                                         "marks": {"em": {}, "strong": {}}}), name)
+              for name, c in (("text-upto3-local", "text{0,3}"), ("text-img-local", "(text img)* text?"))]
+    for si in range(ctx.budget(16, 60)):
         if len(reqs) >= 15000:
             flush()     # keep memory bounded in long runs
         # the statement quantifies over every schema: after one pass over the family, half of the schemas are random ones
-        info = fam[si % len(fam)] if si < len(fam) or rng.random() < 0.5 else schemas.random_schema(rng)
+        if si < len(fam):
+            info = fam[si]
+        elif si < len(fam) + len(aimed):
+            info = aimed[si - len(fam)]
+        else:
+            info = fam[si % len(fam)] if rng.random() < 0.5 else schemas.random_schema(rng)
         schema = info.schema
         ctx.driver.add_schema(info)
         if id(info) not in guard_of:
@@ -198,6 +383,12 @@ def run(ctx):
                 ctx.mismatch("compatTrans", {"schema": info.name}, False, "every schema of the bundled family satisfies the guard")
             greqs.append({"op": "compatTrans", "s": info.lean_id})
             gmetas.append((info.name, guard_of[id(info)]))
+            # `TextLoop`, the hypothesis of merge_succeeds_marks: not asked for by the oracle below (a refused merged mark
+            # step is a violation in every schema); counted to show that schemas without it are exercised
+            loop_of[id(info)] = text_loop(schema)
+            ctx.count("textLoop:" + ("family" if is_fam else "random") + (":true" if loop_of[id(info)] else ":false"))
+            greqs.append({"op": "schemaHyps", "s": info.lean_id})
+            gmetas.append((info.name, ("textLoop", loop_of[id(info)])))
         docs = [x for x in (ctx.guard(lambda: gen.gen_doc(rng, schema, budget=rng.choice([6, 12, 25])), "gen_doc")
                             for _ in range(ctx.budget(5, 10))) if x is not None]
         docs += [x for x in (ctx.guard(lambda: gen.gen_marky_doc(rng, schema), "gen_marky_doc") for _ in range(ctx.budget(2, 4))) if x is not None]
@@ -205,11 +396,15 @@ def run(ctx):
             if ctx.time_left() < 0:
                 break
             ctx.guard(lambda: one_doc(info, d, docs), "merge cases of one document")
+        if info.name in ("bridge", "bridge-local"):
+            for d, pairs in aimed_bridge(rng, info, ctx.budget(10, 40)):
+                ctx.guard(lambda: one_doc(info, d, docs + [d], pairs), "aimed merge cases (non-transitive schema)")
     flush()
     return ctx.finish(
         rule="a case is (document, first step, second step) with the second applying to the result of the first: typing/backspacing "
              "style adjacent replace steps, replace steps with open slices, overlapping/touching mark steps, random pairs; "
-             "bundled-family and random schemas; non-trivial = the real merge returned a step")
+             "deletions joining two or three siblings backwards and forwards; bundled-family, random and aimed schemas (compatible_content "
+             "not transitive; text children that may not repeat); non-trivial = the real merge returned a step")
 
 
 if __name__ == "__main__":
